@@ -36,7 +36,8 @@ class Analysis:
         P = ctx.P
         self.P = P
         self.fi = fi = P.func(GCV)
-        self.alg = mk_algebra(rewrite=_norm_len)
+        self.keeps_shape = _elementwise_functions(P, ('emd.utils.wrap_phase',))
+        self.alg = mk_algebra(rewrite=lambda t: _norm_len(t, self.keeps_shape))
         args = {}
         context = {'return_good': return_good}
         if not mask_given:
@@ -136,6 +137,9 @@ class Analysis:
         """Affine form a + b*N of an integer term, or None."""
         p = self.alg.poly(t)
         nkey = self.alg.canon(natom)
+        sm = self.alg.poly(natom).single_monomial()      # the same rewrites apply to N and to the term
+        if sm is not None and sm[1] == 1 and len(sm[0]) == 1 and sm[0][0][1] == 1:
+            nkey = sm[0][0][0]
         b = p.coeff_of(nkey)
         rest = p - Poly.atom(nkey).scale(b)
         if rest.is_const() and rest.const_value().denominator == 1 and b.denominator == 1:
@@ -143,11 +147,57 @@ class Analysis:
         return None
 
 
-def _norm_len(t):
+def _elementwise_functions(P, names):
+    """{qualname: first parameter} for the listed functions whose every return value is an element-wise arithmetic
+    expression (+ - * / % **) of the first parameter and of scalars (other parameters, numeric constants, np.pi):
+    the result then has the shape of the first argument.  Decided on the evaluated return values of the function in
+    the current tree; a function that no longer has that form is simply not in the map (no rewrite)."""
+    out = {}
+    for q in names:
+        if not P.has_func(q):
+            continue
+        fi = P.func(q)
+        a = fi.node.args
+        params = [x.arg for x in a.posonlyargs + a.args]
+        if not params:
+            continue
+        first, others = S(params[0]), {S(x) for x in params[1:]}
+
+        def elementwise(t):
+            if t == first:
+                return True
+            if t in others or is_c(t) and isinstance(t[1], (int, float)) or t == ('ref', 'numpy.pi'):
+                return False
+            if t[0] == 'bin' and t[1] in ('+', '-', '*', '/', '%', '**'):
+                l, r = elementwise(t[2]), elementwise(t[3])
+                if l is None or r is None:
+                    return None
+                return l or r
+            if t[0] == 'un' and t[1] in ('-', '+'):
+                return elementwise(t[2])
+            return None
+        try:
+            rets = [e for e in Evaluator(P).run(fi) if e.kind == 'return']
+        except AnalysisError:
+            continue
+        # a local read before any assignment is an UnboundLocalError at run time, not a returned value
+        assigned = {n.id for n in walk_local(fi.node) if isinstance(n, ast.Name) and isinstance(n.ctx, ast.Store)}
+        rets = [e for e in rets if not (e.value[0] == 's' and str(e.value[1]).startswith('global:')
+                                        and e.value[1][7:] in assigned)]
+        if rets and all(elementwise(e.value) is True for e in rets):
+            out[q] = params[0]
+    return out
+
+
+def _norm_len(t, keeps_shape=None):
     """Number of samples of a column is the number of rows of the array it was cut from:
-    X[:, i].shape[0] == X.shape[0] ;  len(v) == v.shape[0]."""
+    X[:, i].shape[0] == X.shape[0] ;  len(v) == v.shape[0] ;  f(X).shape == X.shape for an element-wise f."""
     if t[0] == 'sub' and t[2] == C(0) and t[1][0] == 'attr' and t[1][2] == 'shape':
         base = t[1][1]
+        if keeps_shape and base[0] == 'call' and base[1] in keeps_shape:
+            arg = base[2][0] if base[2] else dict(base[3]).get(keeps_shape[base[1]])
+            if arg is not None:
+                return ('sub', ('attr', arg, 'shape'), C(0))
         if base[0] == 'sub' and base[2][0] == 'tuple' and len(base[2][1]) == 2 and base[2][1][0][0] == 'slice' \
                 and all(is_c(x) and x[1] is None for x in base[2][1][0][1:4]):
             return ('sub', ('attr', base[1], 'shape'), C(0))
